@@ -48,13 +48,16 @@ type T struct {
 	exhaustive   bool
 	extra        map[string]any
 
-	known      map[string]string // key -> text
-	vioByKey   map[string]int64
-	vioOrder   []string
-	vioWhat    map[string]string
-	knownHits  map[string]int64
-	replayHit  bool
-	scratchDir string
+	known        map[string]string // key -> text
+	vioByKey     map[string]int64
+	vioOrder     []string
+	vioWhat      map[string]string
+	knownHits    map[string]int64
+	replayHit    bool
+	scratchDir   string
+	shardI       int
+	shardSamples int
+	shardN       int
 }
 
 // ReplayFile is what a violation writes to /verif/replay and what --replay reads.
@@ -113,6 +116,7 @@ func Run(id, level string, f func(t *T)) {
 		}
 	}
 	t.loadKnown()
+	t.initShard()
 	func() {
 		defer func() {
 			if r := recover(); r != nil {
@@ -167,6 +171,10 @@ func (t *T) RNGi(stream string, i int) *rand.Rand {
 // Eval counts one evaluated case. distinctKey "" = trivial (counted as an
 // evaluation only); otherwise the key identifies the non-trivial case.
 func (t *T) Eval(distinctKey string) {
+	if t.shardN > 0 {
+		t.send(shardMsg{K: "eval", Key: distinctKey})
+		return
+	}
 	t.mu.Lock()
 	t.evals++
 	if distinctKey != "" {
@@ -181,6 +189,10 @@ func (t *T) Eval(distinctKey string) {
 // construction (e.g. all byte strings of length 3): evals evaluated, of which
 // nontrivial were non-trivial (counted by the caller's loop, not assumed).
 func (t *T) EvalBulk(evals, nontrivial int64) {
+	if t.shardN > 0 {
+		t.send(shardMsg{K: "bulk", N: evals, M: nontrivial})
+		return
+	}
 	t.mu.Lock()
 	t.evals += evals
 	t.distinctBulk += nontrivial
@@ -189,6 +201,17 @@ func (t *T) EvalBulk(evals, nontrivial int64) {
 
 // Sample records one actual case (first few are kept).
 func (t *T) Sample(v any) {
+	if t.shardN > 0 {
+		t.mu.Lock()
+		t.shardSamples++
+		n := t.shardSamples
+		t.mu.Unlock()
+		if n <= 2 {
+			b, _ := json.Marshal(v)
+			t.send(shardMsg{K: "sample", V: b})
+		}
+		return
+	}
 	t.mu.Lock()
 	if len(t.samples) < maxSamples {
 		t.samples = append(t.samples, v)
@@ -198,6 +221,10 @@ func (t *T) Sample(v any) {
 
 // Count adds to a named observation counter (written under coverage.observed).
 func (t *T) Count(name string, d int64) {
+	if t.shardN > 0 {
+		t.send(shardMsg{K: "count", Key: name, N: d})
+		return
+	}
 	t.mu.Lock()
 	t.counters[name] += d
 	t.mu.Unlock()
@@ -212,6 +239,10 @@ func (t *T) Counter(name string) int64 {
 
 // Inconclusive records a case whose verdict could not be decided.
 func (t *T) Inconclusive(kind string) {
+	if t.shardN > 0 {
+		t.send(shardMsg{K: "inconclusive", Key: kind})
+		return
+	}
 	t.mu.Lock()
 	t.inconclusive[kind]++
 	t.mu.Unlock()
@@ -219,7 +250,15 @@ func (t *T) Inconclusive(kind string) {
 }
 
 // Assume records an assumption for the evidence file.
-func (t *T) Assume(s string) { t.mu.Lock(); t.assumptions = append(t.assumptions, s); t.mu.Unlock() }
+func (t *T) Assume(s string) {
+	if t.shardN > 0 {
+		t.send(shardMsg{K: "assume", Key: s})
+		return
+	}
+	t.mu.Lock()
+	t.assumptions = append(t.assumptions, s)
+	t.mu.Unlock()
+}
 
 // Rule records how cases are generated and what makes one non-trivial.
 func (t *T) Rule(s string) { t.mu.Lock(); t.rule = s; t.mu.Unlock() }
@@ -234,6 +273,14 @@ func (t *T) Extra(k string, v any) { t.mu.Lock(); t.extra[k] = v; t.mu.Unlock() 
 // spaces, independent of seed / run), what is human text, replayCase is any
 // JSON-serialisable description of the failing case.
 func (t *T) Violate(key, what string, replayCase any) {
+	if t.shardN > 0 {
+		var b []byte
+		if replayCase != nil {
+			b, _ = json.Marshal(replayCase)
+		}
+		t.send(shardMsg{K: "violate", Key: key, What: what, V: b})
+		return
+	}
 	key = sanitizeKey(key)
 	t.mu.Lock()
 	defer t.mu.Unlock()
@@ -346,6 +393,10 @@ func (t *T) cleanup() {
 }
 
 func (t *T) finish() int {
+	if t.shardN > 0 {
+		t.flushShard()
+		return 0
+	}
 	t.mu.Lock()
 	defer t.mu.Unlock()
 	distinct := int64(len(t.distinctSet)) + t.distinctBulk
